@@ -115,8 +115,11 @@ def r1_push_pop_pairing(ctx):
                 if pops(nxt):
                     ctx.ob("C11.R1", inst, rel, c.lineno, True, "push; try/finally pop")
                 elif isinstance(par, ast.Try) and st in par.body and pops(par):
-                    ctx.note(f"{rel}::{fn.name}: push_thread_bindings is inside the try whose finally pops (a failed push would pop a foreign frame); helper is not on the binding/with-bindings/set! path")
-                    ctx.ob("C11.R1", inst, rel, c.lineno, True, "paired (push inside try: noted)")
+                    # the same mistake as in Lisp code: a failed push leaves no frame of its own, so the
+                    # finally pops the caller's (runtime.bindings serves ns_bindings, the importer, the CLI)
+                    ctx.ob("C11.R1", inst, rel, c.lineno, False,
+                           "the push is inside the try whose finally pops: if establishing the frame fails (a non-dynamic Var, a value the validator rejects), the enclosing frame is popped instead -- its bindings vanish while their block is still running, and leaving that block raises",
+                           witness="with runtime.bindings({a: 'outer'}): with runtime.bindings({b: 1, non_dynamic: 2}) raises, and a.value is back at its root inside the outer block")
                 else:
                     ctx.ob("C11.R1", inst, rel, c.lineno, False, "Python caller pushes a binding frame without a finally that pops it")
 
@@ -316,10 +319,43 @@ def r5_conveyance(ctx):
             _ = inner_txt
     ctx.ob("C11.R5", f"{CORE}::bound-fn*::snapshot outside, reinstall inside", CORE, bf.line, ok, "" if ok else why)
     # future-call / pmap route through future
-    for name in ("future-call",):
+    for name in ("future-call", "pmap"):
         d = defs.get(name)
         if d is None:
             raise AnalysisError(f"anchor vanished: core.lpy::{name}")
+    # `future` captures the bindings of the thread that evaluates it.  Inside a lazy-seq that is
+    # whichever thread realizes the seq, whenever it does -- so in a function that returns a lazy seq
+    # (pmap, and pcalls / pvalues through it) every future form and every read of a dynamic Var
+    # sits outside the lazy-seq, or inside a function wrapped by bound-fn* outside of it
+    pm = defs["pmap"]
+    sites = []
+    for f in L.walk(pm):
+        is_future = L.head(f) in ("future", "future-call") or (isinstance(f, L.FnLit) and bool(f.items) and (L.is_sym(f.items[0], "future") or L.is_sym(f.items[0], "future-call")))
+        is_dyn =isinstance(f, L.Sym) and f.val == "*pmap-cpu-count*"
+        if not (is_future or is_dyn):
+            continue
+        anc = list(L.ancestors(f))
+        lazy = next((a for a in anc if L.head(a) == "lazy-seq"), None)
+        if lazy is None:
+            sites.append((f, True, ""))
+            continue
+        # conveyed: an enclosing fn that is the argument of bound-fn*, the bound-fn* call itself outside any lazy-seq
+        conveyed = False
+        for a in anc:
+            if L.head(a) == "bound-fn*" and not any(L.head(x) == "lazy-seq" for x in L.ancestors(a)):
+                conveyed = True
+                break
+            if L.head(a) == "bound-fn" and not any(L.head(x) == "lazy-seq" for x in L.ancestors(a)):
+                conveyed = True
+                break
+        what = "a future is created" if is_future else "*pmap-cpu-count* is read"
+        sites.append((f, conveyed, "" if conveyed else f"{what} inside the lazy-seq: it happens in whichever thread first realizes the seq, with that thread's bindings, not where pmap was called"))
+    if not any(L.head(f) in ("future", "future-call") for f, _ok, _w in sites):
+        raise AnalysisError("pmap no longer creates futures in a recognised way")
+    for i, (f, ok, why) in enumerate(sites):
+        ar = next((k for k, (p, b) in enumerate(L.fn_arities(pm)) if any(x is f for bb in b for x in L.walk(bb))), 0)
+        ctx.ob("C11.R5", f"{CORE}::pmap[arity {ar}]::{f.text()[:40]} #{sum(1 for g, _o, _w in sites[:i] if g.text() == f.text())}", CORE, f.line, ok, why,
+               witness="(let [s (binding [*d* :bound] (pmap (fn [x] [x *d*]) [1 2 3]))] (vec s)) => [[1 :root] ...]")
     # get_thread_bindings reads every frame
     gtb = _fn(ctx, "get_thread_bindings")
     ok = any(isinstance(n, ast.For) and "_THREAD_BINDINGS.get_bindings()" in P.un(n.iter) for n in ast.walk(gtb)) and "var.value" in P.un(gtb)
@@ -395,6 +431,13 @@ _PUSH_FIXED = '''    pushed: list[Var] = []
 '''
 
 SELFTEST = [
+    {"name": "runtime.bindings pushes inside the try whose finally pops (the repaired defect)", "file": RT, "expect": "C11.R1",
+     "old": "    push_thread_bindings(m)\n    try:\n        yield\n", "new": "    try:\n        push_thread_bindings(m)\n        yield\n"},
+    {"name": "pmap spawns its futures unconveyed inside the lazy-seq (the repaired defect)", "file": CORE, "expect": "C11.R5",
+     "old": "         spawn      (bound-fn* (fn [chunk]\n                                 (mapv #(future (f %)) chunk)))", "new": "         spawn      (fn [chunk]\n                                 (mapv #(future (f %)) chunk))"},
+    {"name": "pmap reads *pmap-cpu-count* where the seq is realized (the repaired defect)", "file": CORE, "expect": "C11.R5",
+     "old": "                         (concat (map deref (spawn (take chunk-size coll)))\n                                 (step (drop chunk-size coll))))))]",
+     "new": "                         (concat (map deref (spawn (take *pmap-cpu-count* coll)))\n                                 (step (drop *pmap-cpu-count* coll))))))]"},
     {"name": "binding: push moved inside the try", "file": CORE, "expect": "C11.R1",
      "old": "       (push-thread-bindings (hash-map ~@var-bindings))\n       (try\n         ~@body\n", "new": "       (try\n         (push-thread-bindings (hash-map ~@var-bindings))\n         ~@body\n"},
     {"name": "with-bindings*: finally dropped", "file": CORE, "expect": "C11.R1",
